@@ -121,6 +121,25 @@ def run_compose_models(ctx, evals, nc, np_, depth=1, maxtoks=40, simulate=0, inv
                 r["distinct"], r["beh"], r["wall_s"], (" VIOLATED " + str(r["violated"])) if r["violated"] else ""))
     return res
 
+MACHINE_INV = ["Refines", "TicksAgree", "DepthBound", "Linear", "RetDiscipline"]
+
+def run_machine_models(ctx, evals, mn, par=2, workers=6):
+    """TLC MCParserMachine: the parser as an explicit stack machine (one frame per active Rust procedure), tokens supplied on demand;
+    it refines ParseFn (verdict, tree, error position), its tick counter is ParseSteps' prediction, its recursion depth is bounded."""
+    res = {}
+    def one(e):
+        cfg = "CONSTANTS E = \"%s\"\nMK <- MCKinds\nMN = %d\nINIT Init\nNEXT MNext\nCHECK_DEADLOCK FALSE\nINVARIANT %s\n" % (e, mn, " ".join(MACHINE_INV))
+        r = vlib.tlc("MCParserMachine", cfg, "%s_machine_%s" % (ctx.prop, e), workers=workers, timeout=3 * 3600)
+        r.update({"e": e, "N": mn, "beh": 0, "beh_path": None, "samples": [], "machine": True})
+        return e, r
+    with cf.ThreadPoolExecutor(max_workers=par) as ex:
+        for e, r in ex.map(one, evals):
+            vlib.tlc_ok(r, "MCParserMachine %s" % e)
+            res["machine_%s" % e] = r
+            log("TLC MCParserMachine E=%s MN=%d: %d states, %d distinct, depth %d, %.0fs%s" % (e, mn, r["states"], r["distinct"], r["depth"], r["wall_s"],
+                (" VIOLATED " + str(r["violated"])) if r["violated"] else ""))
+    return res
+
 def semantic_models(ctx, w, invs=("C06Exact", "C09IntegerWhenFits", "C09Rounding")):
     """TLC MCSem at word size w (exhaustive over all operand pairs) and ref-selftest of the interpreter at the same w."""
     beh = os.path.join(ctx.wd, "vectors_w%d.ndjson" % w)
@@ -226,7 +245,7 @@ def merge_rules(stats):
             out[k] = out.get(k, 0) + v
     return out
 
-def grammar_check(ctx, cats, n_quick, n_thorough, opts, evals=EVALS, invs=None, level="model_checking", extra_cov=None, profiles=("debug", "release"), lexer=None, sem=None, compose=None, extra_jobs=None, unopt_jobs=None):
+def grammar_check(ctx, cats, n_quick, n_thorough, opts, evals=EVALS, invs=None, level="model_checking", extra_cov=None, profiles=("debug", "release"), lexer=None, sem=None, compose=None, extra_jobs=None, unopt_jobs=None, machine=None):
     prop = ctx.prop
     opt0 = opts[0] if isinstance(opts, list) else opts
     invs = invs if invs is not None else GRAMMAR_INV.get(prop, [])
@@ -242,7 +261,8 @@ def grammar_check(ctx, cats, n_quick, n_thorough, opts, evals=EVALS, invs=None, 
         if ch:
             cc = ch["quick"] if ctx.quick() else ch["thorough"]      # (walks, depth, max tokens)
             models.update(run_compose_models(ctx, evals, 3, 3, depth=cc[1], maxtoks=cc[2], simulate=cc[0], tag="chain"))
-    spec_viol = [(e, r["violated"]) for e, r in models.items() if r["violated"]]
+    machines = run_machine_models(ctx, machine["evals"], machine["quick"] if ctx.quick() else machine["thorough"]) if machine else {}
+    spec_viol = [(e, r["violated"]) for e, r in list(models.items()) + list(machines.items()) if r["violated"]]
     semr = None
     if sem and sem.get("dec"):
         d = sem["dec"]["quick"] if ctx.quick() else sem["dec"]["thorough"]
@@ -295,9 +315,12 @@ def grammar_check(ctx, cats, n_quick, n_thorough, opts, evals=EVALS, invs=None, 
         log("findings of other categories (reported by their own checks): %s" % others)
     # direction B
     tv = trace_validate(ctx, [j for j in os.listdir(ctx.wd) if j.startswith("events_")], cap=16000 if ctx.quick() else 40000)
+    pt = ptrace_validate(ctx, cap=9000 if ctx.quick() else 40000) if opt0.get("parser_events") else None
     nviol = vlib.report(prop, mine)
+    if pt:
+        nviol += vlib.report(prop, pt["rejections"])
     for e, inv in spec_viol:
-        print("VIOLATION property=%s replay=%s" % (prop, (models.get(e) or semr or {}).get("log", "(TLC log)")))
+        print("VIOLATION property=%s replay=%s" % (prop, (models.get(e) or machines.get(e) or semr or {}).get("log", "(TLC log)")))
         log("  the specification itself violates %s for %s" % (inv, e))
         nviol += 1
     trace_cats = {"trace_status": {"C03"}, "trace_ticks": {"C02"}, "trace_pure": {"C16"}}
@@ -316,6 +339,13 @@ def grammar_check(ctx, cats, n_quick, n_thorough, opts, evals=EVALS, invs=None, 
            "max_steps_per_char": max([s.get("max_ticks_ratio", 0) for s in all_stats] + [0]),
            "tlc": {e: {"states": r["states"], "distinct": r["distinct"], "depth": r["depth"], "wall_s": r["wall_s"]} for e, r in models.items()},
            "profiles": list(profiles)}
+    if machines:
+        cov["states"] += sum(r["distinct"] for r in machines.values())
+        cov["transitions"] += sum(r["states"] for r in machines.values())
+        cov["parser_machine"] = {k: {"MN": r["N"], "states": r["distinct"], "depth": r["depth"], "invariants": MACHINE_INV} for k, r in machines.items()}
+    if pt:
+        cov["parser_trace"] = {"records": pt["records"], "driven_through_ParserMachine": pt["stepped"], "events_matched": pt["events"]}
+        cov["traces_validated_against_impl"] += pt["stepped"]
     if semr:
         cov["states"] += semr["distinct"]
         cov["transitions"] += semr["states"]
@@ -362,6 +392,64 @@ def _validate_chunk(args):
             continue
         raise ToolError("trace validation produced neither acceptance nor rejection (log %s, error %s)" % (r["log"], r["error"]))
     return {"totals": totals, "rejections": rejections, "n": len(lines)}
+
+PTRACE_CFG = "CONSTANTS MK <- PTKinds\nMN = 100000\nINIT TInit\nNEXT TNext\nCHECK_DEADLOCK FALSE\nCONSTRAINT Track\nPOSTCONDITION Accepted\n"
+
+def _ptrace_chunk(args):
+    """One JVM: drive spec/ParserMachine.tla through the parser events of a chunk of recorded calls (spec/ParserTrace.tla)."""
+    name, lines = args
+    rejections, totals = [], {}
+    wd = vlib.ensure(os.path.join(WORK, "tlc", name))
+    for attempt in range(6):
+        tp = os.path.join(wd, "ptrace.ndjson")
+        with open(tp, "w") as f:
+            f.write("".join(lines))
+        r = vlib.tlc("MCParserTrace", PTRACE_CFG, name, workers=1, env={"TRACE": tp}, java_opts=TRACE_JAVA, timeout=1800)
+        acc = [p for p in r["prints"] if p.startswith('<<"PTRACE-ACCEPTED"')]
+        rej = [p for p in r["prints"] if p.startswith('<<"PTRACE-REJECTED"')]
+        if acc:
+            totals = json.loads(json.loads(acc[0][len('<<"PTRACE-ACCEPTED", '):-2]))
+            break
+        if rej:
+            try:
+                arr = json.loads("[" + rej[0][2:-2] + "]")
+                d, ev, got = arr[1], json.loads(arr[2]), json.loads(arr[3])
+            except Exception as e:
+                raise ToolError("cannot parse parser-trace rejection: %s (%s)" % (rej[0][:300], e))
+            rejections.append({"index": d, "event": ev, "machine_events": got})
+            del lines[d - 1]
+            continue
+        raise ToolError("parser-trace validation produced neither acceptance nor rejection (log %s, error %s)" % (r["log"], r["error"]))
+    return {"totals": totals, "rejections": rejections, "n": len(lines)}
+
+def ptrace_validate(ctx, cap=12000, chunk=3000, par=4):
+    """Direction B at step level: the parser events recorded by the hook against spec/ParserMachine.tla."""
+    lines = []
+    for fn in sorted(os.listdir(ctx.wd)):
+        if fn.startswith("events_"):
+            lines += [l for l in open(os.path.join(ctx.wd, fn), errors="replace") if '"pev"' in l]
+    if len(lines) > cap:
+        step = len(lines) / float(cap)
+        lines = [lines[int(i * step)] for i in range(cap)]
+    if not lines:
+        return {"records": 0, "stepped": 0, "events": 0, "rejections": []}
+    chunks = [("%s_ptrace_%d" % (ctx.prop, i // chunk), lines[i:i + chunk]) for i in range(0, len(lines), chunk)]
+    t0 = time.time()
+    with cf.ThreadPoolExecutor(max_workers=par) as ex:
+        res = list(ex.map(_ptrace_chunk, chunks))
+    tot = {"records": 0, "stepped": 0, "events": 0}
+    findings = []
+    for r in res:
+        for k in tot:
+            tot[k] += r["totals"].get(k, 0)
+        for rj in r["rejections"]:
+            ev = rj["event"]
+            findings.append({"cat": "trace_parser", "e": ev.get("e"), "input": concrete_of(ev.get("chars", [])), "chars": ev.get("chars"), "ph": json.dumps(ev.get("ph")),
+                             "expected": "a behaviour of spec/ParserMachine.tla; the machine can follow the recorded events only as far as %s" % json.dumps(rj["machine_events"]),
+                             "actual": "recorded parser events %s, outcome %s, parse ticks %s" % (json.dumps(ev.get("pev")), ev.get("st"), (ev.get("tk") or {}).get("parse")), "extra": {}})
+    log("parser-trace validation: %d records, %d driven through ParserMachine step by step (%d events), %.0fs; %d rejected" % (tot["records"], tot["stepped"], tot["events"], time.time() - t0, len(findings)))
+    tot["rejections"] = findings
+    return tot
 
 def concrete_of(chars):
     m = {"PI_SYM": "π", "LFLOOR": "⌊", "RFLOOR": "⌋", "LCEIL": "⌈", "RCEIL": "⌉", "DEG": "°", "WS": " ", "OTHER": "#"}
@@ -449,21 +537,21 @@ def c01(ctx):
                          compose={"quick": (3, 3), "thorough": (4, 4), "chains": {"quick": (4, 14, 100), "thorough": (150, 20, 110)}})
 
 def c03(ctx):
-    return grammar_check(ctx, {"ok_on_reject", "err_on_defined"}, {"*": 5}, {"*": 6, "f64": 7}, {"assignments": 2, "event_every": 100, "event_cap": 2000, "nontrivial_min_ops": 1, "reject_suffixes": 2},
+    return grammar_check(ctx, {"ok_on_reject", "err_on_defined"}, {"*": 5}, {"*": 6, "f64": 7}, {"assignments": 2, "event_every": 100, "event_cap": 2000, "nontrivial_min_ops": 1, "reject_suffixes": 2, "parser_events": True},
                          lexer={"alphabets": ["lit", "kw1", "kw2", "kw3", "ops", "sup"], "k_quick": 3, "k_thorough": 5})
 
 def c04(ctx):
     # second pass: in eval_i64 (and on eval_number's Integers) two groupings of + - * differ only in whether an intermediate
     # result overflows, so the tree-revealing operands there are the boundary values
     return grammar_check(ctx, {"value", "err_on_defined", "ok_on_semantic_err"}, {"*": 5}, {"*": 6, "f64": 7},
-                         [{"assignments": 3, "event_every": 100, "event_cap": 2000, "nontrivial_min_ops": 2},
+                         [{"assignments": 3, "event_every": 100, "event_cap": 2000, "nontrivial_min_ops": 2, "parser_events": True},
                           {"assignments": 1, "boundary_pool": True, "full_placeholders": True, "max_assign": 150 if ctx.quick() else 3000, "event_every": 1000, "event_cap": 500,
                            "nontrivial_min_ops": 2, "only_models": ["i64", "num"]}],
-                         compose={"quick": (3, 3), "thorough": (4, 4)})
+                         compose={"quick": (3, 3), "thorough": (4, 4)}, machine={"evals": ["f64", "i64"], "quick": 4, "thorough": 6})
 
 def c12(ctx):
     return grammar_check(ctx, {"meta_jux", "ok_on_reject"}, {"*": 5}, {"*": 6, "f64": 7},
-                         {"assignments": 2, "extras": ["jux"], "event_every": 200, "event_cap": 1500, "nontrivial_min_ops": 1})
+                         {"assignments": 2, "extras": ["jux"], "event_every": 200, "event_cap": 1500, "nontrivial_min_ops": 1, "parser_events": True})
 
 def c13(ctx):
     return grammar_check(ctx, {"meta_ws", "meta_alias", "meta_notation", "meta_sup", "meta_plus", "meta_wrap"}, {"*": 4}, {"*": 5, "f64": 6},
